@@ -458,6 +458,8 @@ def finding_signature(pid, c, fail):
         return "rosenbrock:nonfinite_with_time_step_below_round_off"
     if pid == "C10" and m.get("integ") == 0 and m.get("inf_not_consumed"):
         return "rosenbrock:inf_in_species_not_consumed"
+    if pid == "C20" and fail.startswith("SetAbsoluteTolerances accepted a vector of the wrong length"):
+        return "state:absolute_tolerances_wrong_length"
     return (c.kind or "") + ":" + fail.split(":")[0][:60]
 
 # =============================================================================== per-property generators
@@ -1823,6 +1825,22 @@ def g_c20(r, tier, env, Ls):
             ops.append(["dump", "0"])
         ops += problem_ops(r, p, 0)
         cs.append(Case(hist_line(p, ops), dict(p), "hist-errors", oracle=oracle_hist_errors, tags=["setters", "integ=%d" % p["integ"]]))
+    # the setters of State with arbitrary arguments (names, labels, lengths), each followed by a dump of the whole State;
+    # expectation computed by an independent Python transcription of the documented behaviour (xsetters_spec)
+    for _ in range(80 if tier == "quick" else 1500):
+        p = gen_solve_problem(r, env, Ls)
+        p["perm"] = list(range(p["ns"]))
+        ops, exp = gen_xsetter_history(r, p)
+        cs.append(Case(hist_line(p, ops), dict(p, expect=exp), "hist-setters", oracle=oracle_xsetters,
+                       tags=["xsetters", "ncell=%d" % min(p["ncell"], 3)] + sorted(set("x:" + e.split(" ")[0] + ("" if not e.startswith("err") else ":" + e[4:]) for e in exp if not e.startswith("dumpv")))))
+    # absolute tolerances of the wrong length (known finding KF-C20-1: no check in the source); the model covers
+    # correct-length tolerance vectors only, so these cases are judged by the oracle alone
+    for _ in range(6 if tier == "quick" else 60):
+        p = gen_solve_problem(r, env, Ls)
+        p["perm"] = list(range(p["ns"]))
+        n = r.pick([0, max(p["ns"] - 1, 0), p["ns"] + 1])
+        ops = [["new", "0"]] + problem_ops(r, p, 0)[:-1] + [["xsettol", "0", str(n)] + [hexd(1e-6)] * n + [hexd(1e-6)], ["solve", "0", hexd(r.logu(1e-2, 1e1))]]
+        cs.append(Case(hist_line(p, ops), dict(p, tol_len=n), "hist-tol-length", oracle=oracle_tol_length, compare=False, tags=["tolerance_length=%s" % ("0" if n == 0 else "short" if n < p["ns"] else "long")]))
     # documented errors outside builder/State: expectation written down here independently of the model
     def E(line, expect, tag):
         cs.append(Case(line, dict(expect=expect), "errc", oracle=oracle_errc, tags=["errc", tag]))
@@ -1848,6 +1866,118 @@ def g_c20(r, tier, env, Ls):
         line, meta = gen_sparse_case(r, Ls)
         cs.append(Case(line, meta, "sparse", oracle=oracle_sparse, tags=["matrix_errors"]))
     return cs
+
+def gen_xsetter_history(r, p):
+    """random calls of the State setters with valid and invalid arguments on State 0 (no solve in between), plus the
+    outcome and the dump an independent transcription of state.inl predicts"""
+    ns, ncell, nrx = p["ns"], p["ncell"], len(p["rx"])
+    vars_ = [[0.0] * ns for _ in range(ncell)]; pars = [[0.0] * nrx for _ in range(ncell)]
+    atol = [1e-3] * ns; rtol = [1e-6]
+    ops = [["new", "0"]]; exp = ["ok"]
+    cnt = [0]
+    def val():
+        cnt[0] += 1
+        return float(cnt[0]) + r.pick([0.0, 0.5, 0.25])        # never equal to anything the State already holds
+    def name_c(): return r.pick(["s%d" % r.below(ns)] * 4 + ["Xx", "s%d" % ns, "r0", "S0"])
+    def name_p(): return r.pick(["r%d" % r.below(nrx)] * 4 + ["Xx", "r%d" % nrx, "s0", "R0"])
+    def length(): return r.pick([ncell] * 4 + [ncell + 1, max(ncell - 1, 0), 0])
+    def dump():
+        return "dumpv v=" + " ".join(hexd(v) for row in vars_ for v in row) + " p=" + " ".join(hexd(v) for row in pars for v in row) + \
+               " a=" + " ".join(hexd(v) for v in atol) + " r=" + hexd(rtol[0])
+    def set_one(conc, name, vals):
+        """the single setter: unknown name first (code 1 / 2), then the number of values (code 3 / 5)"""
+        names = ["s%d" % i for i in range(ns)] if conc else ["r%d" % i for i in range(nrx)]
+        if name not in names: return "err MICM_State %d" % (1 if conc else 2)
+        if len(vals) != ncell: return "err MICM_State %d" % (3 if conc else 5)
+        j = names.index(name)
+        for c in range(ncell): (vars_ if conc else pars)[c][j] = vals[c]
+        return "ok"
+    for _ in range(r.rng(3, 10)):
+        z = r.below(9)
+        if z <= 1:
+            conc = z == 0; name = name_c() if conc else name_p(); vals = [val() for _ in range(length())]
+            ops.append(["xsetc" if conc else "xsetp", "0", name, str(len(vals))] + [hexd(v) for v in vals]); exp.append(set_one(conc, name, vals))
+        elif z <= 3:
+            conc = z == 2; name = name_c() if conc else name_p(); v = val()
+            ops.append(["xsetc1" if conc else "xsetp1", "0", name, hexd(v)])
+            names = ["s%d" % i for i in range(ns)] if conc else ["r%d" % i for i in range(nrx)]
+            if name not in names: exp.append("err MICM_State %d" % (1 if conc else 2))
+            elif ncell != 1: exp.append("err MICM_State %d" % (3 if conc else 5))
+            else: (vars_ if conc else pars)[0][names.index(name)] = v; exp.append("ok")
+        elif z <= 5:
+            # bulk setters whose outcome does not depend on the unordered_map's iteration order: all entries valid and
+            # distinct, or a single entry, or all entries rejected for the same reason
+            conc = z == 4; names = ["s%d" % i for i in range(ns)] if conc else ["r%d" % i for i in range(nrx)]
+            mode = r.below(3)
+            if mode == 0:
+                ks = r.shuffle(names)[:r.rng(0, len(names))]; ent = [(k, [val() for _ in range(ncell)]) for k in ks]
+            elif mode == 1:
+                ent = [((name_c() if conc else name_p()), [val() for _ in range(length())])]
+            else:
+                ent = [(k, [val() for _ in range(ncell)]) for k in ["Xx", "Yy", "Zz"][:r.rng(1, 3)]]
+            ops.append(["xsetcs" if conc else "xsetps", "0", str(len(ent))] + [t for (k, vs) in ent for t in [k, str(len(vs))] + [hexd(v) for v in vs]])
+            out = "ok"
+            for (k, vs) in ent:
+                out = set_one(conc, k, vs)
+                if out != "ok": break
+            exp.append(out)
+        elif z == 6:
+            # order-dependent bulk call: checked on the real object against the prefix law; followed by a reset of every
+            # column so that the dump is order-independent again
+            conc = r.chance(0.5); names = ["s%d" % i for i in range(ns)] if conc else ["r%d" % i for i in range(nrx)]
+            ks = r.shuffle(names)[:r.rng(1, len(names))] + ["Xx"][:r.below(2)]
+            ent = [(k, [val() for _ in range(ncell if r.chance(0.8) else ncell + 1)]) for k in r.shuffle(ks)]
+            ops.append([("xsetcs" if conc else "xsetps") + "_law", "0", str(len(ent))] + [t for (k, vs) in ent for t in [k, str(len(vs))] + [hexd(v) for v in vs]])
+            exp.append("law ok")
+            for k in names:
+                vs = [val() for _ in range(ncell)]
+                ops.append(["xsetc" if conc else "xsetp", "0", k, str(ncell)] + [hexd(v) for v in vs]); exp.append(set_one(conc, k, vs))
+        elif z == 7:
+            nrows = r.pick([ncell] * 3 + [ncell + 1, max(ncell - 1, 0)])
+            rows = []
+            for i in range(nrows):
+                ln = r.pick([nrx] * 4 + [nrx + 2, max(nrx - 1, 0)]) if i else r.pick([nrx] * 4 + [nrx + 1, max(nrx - 1, 0)])
+                rows.append([val() for _ in range(ln)])
+            ops.append(["xunsafep", "0", str(nrows)] + [t for row in rows for t in [str(len(row))] + [hexd(v) for v in row]])
+            if nrows != ncell: exp.append("err MICM_State 5")
+            elif len(rows[0]) != nrx: exp.append("err MICM_State 4")
+            else:
+                out = "ok"
+                for i in range(ncell):
+                    if len(rows[i]) < nrx: out = "err MICM_Matrix 1"; break      # rows before it were written
+                    pars[i] = rows[i][:nrx]
+                exp.append(out)
+        else:
+            at = [r.pick([1e-3, 1e-6, 1e-9]) for _ in range(ns)]; rt = r.pick([1e-3, 1e-6])
+            ops.append(["xsettol", "0", str(ns)] + [hexd(v) for v in at] + [hexd(rt)]); exp.append("ok")
+            atol[:] = at; rtol[0] = rt
+        ops.append(["dumpv", "0"]); exp.append(dump())
+    return ops, exp
+
+def oracle_xsetters(c, out):
+    if out is None or out.startswith("ub") or out == "hang" or not out.startswith("hist "):
+        return f"history of setter calls ended with '{(out or '')[:80]}'"
+    parts = out[5:].split(" | ")
+    exp = c.meta["expect"]
+    if len(parts) != len(exp):
+        return f"{len(parts)} results for {len(exp)} operations"
+    for i, (g, e) in enumerate(zip(parts, exp)):
+        if g != e:
+            return f"operation #{i}: expected '{e[:120]}', the implementation gave '{g[:120]}'"
+    return None
+
+def oracle_tol_length(c, out):
+    """a tolerance vector of the wrong length must be rejected with a documented error (C20); the source accepts it"""
+    n, ns = c.meta["tol_len"], c.meta["ns"]
+    if n == ns:
+        return None
+    if out is not None and out.startswith("hist "):
+        parts = out[5:].split(" | ")
+        if len(parts) >= 2 and parts[-2].startswith("err MICM"):
+            return None          # rejected with a system_error: what the property asks for
+    how = "the call returned normally" if (out or "").startswith("hist ") else f"the history ended with '{(out or '')[:40]}'"
+    return (f"SetAbsoluteTolerances accepted a vector of the wrong length: {n} values for {ns} species were not rejected ({how}); the error norm then "
+            f"indexes the vector cyclically / out of range / modulo zero")
 
 def oracle_errc(c, out):
     exp = c.meta["expect"]
